@@ -5,11 +5,14 @@ package main
 import (
 	"fmt"
 	"os"
+	"runtime/debug"
 
 	"verif/harness/internal/props"
 )
 
 func main() {
+	// the harness holds large, long-lived tables (units, outputs); collect eagerly rather than let the heap double
+	debug.SetGCPercent(40)
 	if len(os.Args) < 3 {
 		fmt.Fprintln(os.Stderr, "usage: vcheck run <PROP> [--tier quick|thorough] | vcheck replay <PROP> <file>")
 		os.Exit(2)
